@@ -53,6 +53,12 @@ func (i *Interpreter) EvaluateExpression(expr Expr, env *Environment) (interface
 		if err != nil {
 			return nil, posError(e.Pos, err)
 		}
+		// The module's constants are shared by every request. An array or
+		// object among them is handed out as a copy, because element
+		// assignment, set() and remove() change a value in place.
+		if i.IsConstant(e.Name) && env.definedIn(e.Name, i.globalEnv) {
+			val = snapshotValue(val)
+		}
 		return val, nil
 
 	case BinaryOpExpr:
